@@ -26,7 +26,11 @@ Definition lb17_example : list node :=
 
 Lemma lb17_example_text c : c <> 0 -> c <> 123 -> c <> 125 -> c <> 47 -> droppable [c] = false ->
   forall p r, lb17_okb r -> match r with NRawText _ _ :: _ => False | _ => True end -> lb17_okb (NRawText p [c] :: r).
-Proof. intros H0 H1 H2 H3 Hd p r Hr Hh. apply lb17_ok_text; try assumption; repeat constructor; assumption. Qed.
+Proof.
+  intros H0 H1 H2 H3 Hd p r Hr Hh. apply lb17_ok_text; try assumption.
+  - repeat constructor; assumption.
+  - apply lb17_one_piece_noslash. repeat constructor; assumption.
+Qed.
 
 Lemma lb17_example_ok : lb17_okb lb17_example.
 Proof.
